@@ -318,6 +318,7 @@ pub fn run(tier: &str) -> i32 {
         eprintln!("C01S: machinery error: {}", vb.to_json());
         return 2;
     }
+    release_ports();
     println!(
         "C01S-RESULT {}",
         json!({"variants": calls_per_variant, "crash_points": points.load(Ordering::Relaxed), "kill_in_recovery_points": nested_points.load(Ordering::Relaxed), "launches": launches.load(Ordering::Relaxed),
